@@ -469,6 +469,14 @@ def check_resolve(ctx: Ctx) -> None:
             val_kinds = filter_kinds(ctx, walk, n.ast.value, n)
             if "exclude" in val_kinds or any(isinstance(c, ast.Call) and "excluded" in norm(c.func) for c in ast.walk(n.ast.value)):
                 prunes.append((n, val_kinds))
+    # the kept sub-directories may be computed into a local first: kept = [...filter...]; dirnames[:] = kept
+    for i_, (n, kinds) in enumerate(list(prunes)):
+        t_ = n.ast.targets[0]
+        if isinstance(t_, ast.Name):
+            for m_ in wflow.cfg.nodes:
+                if m_.kind == "stmt" and isinstance(m_.ast, ast.Assign) and isinstance(m_.ast.targets[0], ast.Subscript) and isinstance(m_.ast.value, ast.Name) \
+                        and m_.ast.value.id == t_.id and [d.node for d in wflow.reaching(m_, t_.id)] == [n]:
+                    prunes[i_] = (m_, kinds)
     ctx.require("R-RESOLVE-V3", "directory pruning statement in _walk_directory", len(prunes), 1)
     for n, kinds in prunes:
         t = n.ast.targets[0]
@@ -588,6 +596,30 @@ def check_resolve(ctx: Ctx) -> None:
                             cmp_ok = True
                     if isinstance(c.ops[0], ast.Lt) and from_limit(l, n) and "st_size" in norm(r):
                         cmp_ok = True
+    if not zero:
+        # decided by evaluation: with the limit equal to 0, every path of the size test answers "not too large" - however the
+        # short-circuit is spelled (early return, `!= 0` guard around the stat, a flag initialised to False ...)
+        from ..decide import Decider
+
+        for tf, lim_params in targets:
+            sflow = prog.flow(tf)
+
+            def atom(leaf: ast.AST, _al: frozenset, tf=tf, lim_params=lim_params):
+                cur = dec._cur[1] if dec._cur is not None and dec._cur[0] is tf else sflow.cfg.entry
+
+                def lim(e: ast.AST) -> bool:
+                    return any(_mentions_attr(o, "files_max_size") or (o[0] == "param" and o[1] in lim_params) for o in origins(prog, tf, e, cur))
+                if isinstance(leaf, ast.Compare) and len(leaf.ops) == 1 and isinstance(leaf.comparators[0], ast.Constant) and leaf.comparators[0].value == 0 and lim(leaf.left):
+                    op = leaf.ops[0]
+                    return {ast.Eq: True, ast.NotEq: False, ast.Gt: False, ast.LtE: True, ast.GtE: True, ast.Lt: False}.get(type(op))
+                if isinstance(leaf, (ast.Name, ast.Attribute)) and lim(leaf):
+                    return False  # the limit itself as a truth value
+                return None
+
+            dec = Decider(prog, atom)
+            outs = dec.func_outcomes(tf, frozenset())
+            if outs and all(v is False for v in outs):
+                zero = True
     ctx.ob("R-RESOLVE-V5", f"{size.qual} :: 0 means no limit", zero, "files_max_size == 0 must short-circuit to 'not too large'", where(size, size.node))
     ctx.ob("R-RESOLVE-V5", f"{size.qual} :: larger-than comparison", cmp_ok,
            "a file is skipped only if its size is strictly greater than the limit (st_size > files_max_size)", where(size, size.node))
